@@ -59,7 +59,9 @@ class Env(object):
         os.makedirs(os.path.join(self.tmp, "data"))
         with open(os.path.join(self.tmp, "data", "x.csv"), "w") as f:
             f.write("a\n1\n")
-        self.wd = self.tmp if with_wd else None
+        # with_wd: True (absolute directory), False (None) or "empty" (the empty string, which is what the command-line
+        # tool passes for a command file named without a directory: relative paths are then relative to the cwd)
+        self.wd = "" if with_wd == "empty" else (self.tmp if with_wd else None)
         self.prog = Program(libraries=tuple(EEMS_CSV_LIBRARIES) + ("vlib_verif",), working_dir=self.wd)
         lib = self.prog.command_library
 
@@ -409,9 +411,13 @@ def param_kind(p):
 
 def check_case(case, rec):
     env = Env(case["wd"])
+    cwd = os.getcwd()
     try:
+        if case["wd"] == "empty":
+            os.chdir(env.tmp)
         return _check(case, rec, env)
     finally:
+        os.chdir(cwd)
         env.close()
 
 
@@ -422,7 +428,7 @@ def _check(case, rec, env):
     pristine = make_raw(rspec, env)
     before = env.state()
     vlog.reset()
-    sig = "%s|%s|%s" % (param_kind(pspec), raw_kind(rspec), "wd" if case["wd"] else "nowd")
+    sig = "%s|%s|%s" % (param_kind(pspec), raw_kind(rspec), "emptywd" if case["wd"] == "empty" else ("wd" if case["wd"] else "nowd"))
     fails = []
     k1, v1 = do_clean(param, raw, env)
     rec.label("param:" + pspec["c"])
@@ -465,7 +471,7 @@ def _check(case, rec, env):
     k2, v2 = do_clean(param, raw, env)
     if k2 != k1 or (k1 == "value" and not same(v1, v2)) or (k1 == "error" and type(v1) is not type(v2)):
         fails.append(Failure("%s|not_deterministic" % sig, "first %r, second %r" % ((k1, v1), (k2, v2))))
-    if k1 == "value" and (pspec["c"] != "Path" or case["wd"]):
+    if k1 == "value" and (pspec["c"] != "Path" or case["wd"] is True):
         k3, v3 = do_clean(param, v1, env)
         if k3 != "value" or not same(v3, v1):
             fails.append(Failure("%s|not_idempotent" % sig, "clean(v)=%r, clean(clean(v))=%r" % (v1, v3 if k3 == "value" else (k3, type(v3).__name__))))
@@ -540,7 +546,9 @@ def matrix_cases(ctx):
         for r in RAW_POOL + [{"t": "array"}]:
             if r["t"] == "array" and p["c"] not in ("Data", "Parameter"):
                 continue
-            for wd in (True, False):
+            for wd in (True, False, "empty"):
+                if wd == "empty" and not ("Path" in param_kind(p) and (r["t"] in ("path", "str") or r["t"].startswith("list"))):
+                    continue  # the working directory only matters for paths
                 yield {"param": p, "raw": r, "wd": wd}
 
 
@@ -574,7 +582,8 @@ def raws():
 
 
 def generated_cases():
-    return st.builds(lambda p, r, wd: {"param": p, "raw": r, "wd": wd}, st.sampled_from(param_specs()), raws(), st.booleans())
+    return st.builds(lambda p, r, wd: {"param": p, "raw": r, "wd": wd}, st.sampled_from(param_specs()), raws(),
+                     st.sampled_from([True, True, False, False, "empty"]))
 
 
 PARTS = {"clean": check_case}
